@@ -31,6 +31,14 @@ OwnDetailWords(v) ==
     [] v.ty \in {"withIssueLink", "unimplementedError", "withTelemetry", "withContext"} ->
          UNION {WordsOf(v.a[i]) : i \in 1..Len(v.a)}
     [] OTHER -> {}
+\* the strings of a wrapper's own detail, each of which its entry must show verbatim
+OwnDetailStrs(v) ==
+  CASE v.ty \in {"withHint", "withDetail"} -> {v.s} \ {<<>>}
+    [] v.ty \in {"withIssueLink", "unimplementedError"} -> {v.a[i] : i \in 1..Len(v.a)} \ {<<>>}
+    [] OTHER -> {}
+\* s occurs in t as a contiguous subsequence
+Occurs(s, t) == \E i \in 0..(Len(t) - Len(s)) : SubSeq(t, i + 1, i + Len(s)) = s
+
 \* the detail literal its entry must show (a catalogue name, mapped by the harness
 \* from the live text) or "" for none
 OwnDetailLit(v) ==
